@@ -269,6 +269,7 @@ func c15Model(v *fw.V, cls string, d *schema.Definitions) *schema.Definitions {
 	// population "elements with an id" is taken over (Definitions itself and diagram-
 	// interchange shapes are outside the schema's id lookup by construction)
 	ids := canon.IDs(d, func(p any) bool { _, ok := p.(schema.BaseElementInterface); return ok })
+	owners := canon.Owners(d)
 	// every id retrievable in the original
 	for id, typ := range ids {
 		el, found := d.FindBy(schema.ExactId(id))
@@ -281,6 +282,12 @@ func c15Model(v *fw.V, cls string, d *schema.Definitions) *schema.Definitions {
 				v.Violate("id-wrong-element", typ, "FindBy(ExactId(%s)) returned an element with another id", id)
 				return nil
 			}
+		}
+		// ... and it is that element, not one of its embedded base types (an expression found by id must still
+		// be the formal expression with its language and text)
+		if own, ok := owners[id]; ok && reflect.TypeOf(own) != reflect.TypeOf(el) {
+			v.Violate("id-wrong-element", reflect.TypeOf(own).Elem().Name(), "FindBy(ExactId(%s)) returned a %T, the element carrying this id is a %T", id, el, own)
+			return nil
 		}
 	}
 	out, err := xml.Marshal(d)
